@@ -52,6 +52,10 @@ def spellings():
     add("i_i8_min", "i8", "validate(greater_or_equal = -128)", "true", can_err=False)
     add("i_i64_big", "i64", "validate(less = 9_223_372_036_854_775_807)", "x < i64::MAX")
     add("i_usize_const", "usize", "validate(less = UK + 1)", "x < UK + 1")
+    # user constants named like identifiers the generated code may introduce itself
+    add("i_const_named_max", I, "validate(less = MAX)", "x < 9")
+    add("i_const_named_min_max", I, "validate(greater_or_equal = MIN + 1, less_or_equal = MAX - 1)", "x >= -8 && x <= 8")
+    add("i_const_cross_max", I, "validate(greater_or_equal = MAX - 5, less_or_equal = 100)", "x >= 4 && x <= 100")
     # ---- float bound spellings
     F = "f64"
     add("f_lit", F, "validate(less = 5.5)", "!(x >= 5.5)")
@@ -105,6 +109,7 @@ def spellings():
 
 PRELUDE = '''use nutype::nutype;
 pub const K: i32 = 5; pub const K8: i8 = 5; pub const UK: usize = 5; pub const KF: f64 = 5.5;
+pub const MAX: i32 = 9; pub const MIN: i32 = -9;
 pub fn f() -> i32 { 7 }
 pub fn san(x: i32) -> i32 { x ^ 0x55 }
 pub fn san2(x: i32) -> i32 { x.wrapping_add(3) }
